@@ -24,3 +24,4 @@ def run(col, configs, tier):
         guarded(col, sep.rule_lookaround_kind, facts)
         guarded(col, sep.rule_take_n_twins, facts)
         guarded(col, sep.rule_window_keeps_count, facts)
+        guarded(col, X.rule_suffix_step, facts)
